@@ -98,9 +98,35 @@ pub fn lonlat_to_cell(lonlat: LonLat, resolution: i32) -> Result<u64, String> {
 
     #[cfg(feature = "verif")]
     verif::set_last_lookup(3, verif_sample_index, unique_estimates.len() as u8);
-    // As fallback, sort cells by distance and use the closest one
-    cells.sort_by(|a, b| b.1.partial_cmp(&a.1).unwrap_or(std::cmp::Ordering::Equal));
-    serialize(&cells[0].0)
+    // As fallback use the closest cell. The value returned by a5cell_contains_point is normalized by the
+    // distance to a vertex, so it is not a metric for points (numerically) on a vertex: use the true distance
+    let mut closest = (f64::INFINITY, &cells[0].0);
+    for (cell, _) in &cells {
+        let distance = a5cell_distance_to_point(cell, lonlat)?;
+        if distance < closest.0 {
+            closest = (distance, cell);
+        }
+    }
+    serialize(closest.1)
+}
+
+/// Euclidean distance (in face coordinates) from a point to the boundary of a cell
+fn a5cell_distance_to_point(cell: &A5Cell, point: LonLat) -> Result<f64, String> {
+    let dodecahedron = DodecahedronProjection::get_thread_local();
+    let p = dodecahedron.forward(from_lon_lat(point), cell.origin_id)?;
+    let pentagon = get_pentagon(cell)?;
+    let vertices = pentagon.get_vertices_vec();
+    let n = vertices.len();
+    let mut min_distance = f64::INFINITY;
+    for i in 0..n {
+        let (v1, v2) = (vertices[i], vertices[(i + 1) % n]);
+        let (ex, ey) = (v2.x() - v1.x(), v2.y() - v1.y());
+        let (px, py) = (p.x() - v1.x(), p.y() - v1.y());
+        let t = ((px * ex + py * ey) / (ex * ex + ey * ey)).clamp(0.0, 1.0);
+        let (dx, dy) = (px - t * ex, py - t * ey);
+        min_distance = min_distance.min((dx * dx + dy * dy).sqrt());
+    }
+    Ok(min_distance)
 }
 
 /// The ij_to_s function uses the triangular lattice which only approximates the pentagon lattice
